@@ -22,6 +22,7 @@ package forwarding
 
 import (
 	"encoding/hex"
+	"errors"
 	"fmt"
 	"strconv"
 	"strings"
@@ -124,6 +125,16 @@ func (a *HypAttributes) Validate() error {
 	if a.DestinationDomain == HypNobleMainnetDomain ||
 		a.DestinationDomain == HypNobleTestnetDomain {
 		return fmt.Errorf("destination domain %d is a Noble domain", a.DestinationDomain)
+	}
+
+	// The gas limit and the max fee are handed to the warp module as they are, and
+	// the module panics on nil or negative integers and on invalid coins.
+	if a.GasLimit.IsNil() || a.GasLimit.IsNegative() {
+		return errors.New("gas limit must be set and cannot be negative")
+	}
+
+	if err := a.MaxFee.Validate(); err != nil {
+		return fmt.Errorf("invalid max fee: %w", err)
 	}
 
 	if a.CustomHookMetadata != "" {
